@@ -362,11 +362,97 @@ func (x *ppExec) elemOf(fr *ppFrame, v ssa.Value) (seq string, idx ssa.Value, ok
 		}
 	case *ssa.Field:
 		return x.elemOf(fr, s.X)
+	case *ssa.Call:
+		// a padded read moved into a helper: f(seq, i) = seq[i] or a constant when there is no such element
+		if g := s.Call.StaticCallee(); g != nil {
+			if sp, ip, ok := paddedReadHelper(g); ok && len(s.Call.Args) == len(g.Params) {
+				if n := x.seqName(fr, s.Call.Args[sp]); n != "" {
+					return n, s.Call.Args[ip], true
+				}
+			}
+		}
 	case *ssa.Extract:
 		// the value of a range loop over a sequence
 		return "", nil, false
 	}
 	return "", nil, false
+}
+
+// paddedReadHelper: g(seq, i) returns seq[i] (or a field of it) on some paths and a constant on the others
+func paddedReadHelper(g *ssa.Function) (seqParam, idxParam int, ok bool) {
+	if g == nil || g.Blocks == nil || len(g.Params) != 2 || g.Signature.Results().Len() != 1 {
+		return 0, 0, false
+	}
+	seqParam, idxParam = -1, -1
+	for i, prm := range g.Params {
+		if _, isSlice := prm.Type().Underlying().(*types.Slice); isSlice {
+			seqParam = i
+		} else if isIntType(prm.Type()) {
+			idxParam = i
+		}
+	}
+	if seqParam < 0 || idxParam < 0 {
+		return 0, 0, false
+	}
+	nElem, nConst := 0, 0
+	var isElem func(v ssa.Value, depth int) bool
+	isElem = func(v ssa.Value, depth int) bool {
+		if depth > 3 {
+			return false
+		}
+		switch e := v.(type) {
+		case *ssa.UnOp:
+			if e.Op == token.MUL {
+				switch a := e.X.(type) {
+				case *ssa.IndexAddr:
+					return a.X == ssa.Value(g.Params[seqParam]) && a.Index == ssa.Value(g.Params[idxParam])
+				case *ssa.FieldAddr:
+					if ia, ok := a.X.(*ssa.IndexAddr); ok {
+						return ia.X == ssa.Value(g.Params[seqParam]) && ia.Index == ssa.Value(g.Params[idxParam])
+					}
+				}
+			}
+		case *ssa.Field:
+			return isElem(e.X, depth+1)
+		}
+		return false
+	}
+	for _, b := range g.Blocks {
+		ret, isRet := b.Instrs[len(b.Instrs)-1].(*ssa.Return)
+		if !isRet {
+			continue
+		}
+		switch v := ret.Results[0].(type) {
+		case *ssa.Const:
+			nConst++
+		case *ssa.Phi:
+			for _, ed := range v.Edges {
+				if _, isC := ed.(*ssa.Const); isC {
+					nConst++
+				} else if isElem(ed, 0) {
+					nElem++
+				} else {
+					return 0, 0, false
+				}
+			}
+		default:
+			if isElem(v, 0) {
+				nElem++
+			} else if _, isLit := v.(*ssa.UnOp); isLit {
+				// a composite literal default (struct padding): a load from a fresh local
+				if u := v.(*ssa.UnOp); u.Op == token.MUL {
+					if _, isAl := u.X.(*ssa.Alloc); isAl {
+						nConst++
+						continue
+					}
+				}
+				return 0, 0, false
+			} else {
+				return 0, 0, false
+			}
+		}
+	}
+	return seqParam, idxParam, nElem > 0 && nConst > 0
 }
 
 // classify a branch condition: a literal over the base, a padded-read guard (neutral), the order guard, or unknown
